@@ -106,9 +106,7 @@ def leave_set(A, prog, rec, fn, wait_node):
 
     if len(wait_node.get('args', [])) >= 2:
         # predicate overload: leave set = values for which the predicate returns true
-        lam = strip(wait_node['args'][1])
-        while lam.get('k') in ('CXXConstructExpr', 'MaterializeTemporaryExpr', 'CXXBindTemporaryExpr') and (lam.get('args') or lam.get('c')):
-            lam = strip((lam.get('args') or lam.get('c'))[0])
+        lam = next((x for x in walk(wait_node['args'][1]) if x.get('k') == 'LambdaExpr'), {})
         op = prog.functions.get(lam.get('op')) if lam.get('k') == 'LambdaExpr' else None
         if op is None:
             return None, 'predicate form with an unrecognised predicate'
@@ -117,7 +115,7 @@ def leave_set(A, prog, rec, fn, wait_node):
             st = interp.State()
             st.mem[(MON, (A.state,))] = C(v)
             I2 = interp.Interp(prog, models=dict(models.STD_MODELS))
-            out = I2.run(op, st, this=P(('ext', 'closure'), ()))
+            out = I2.run(op, st, this=P(MON, ()))      # inside the lambda, `this` is the enclosing monitor object
             # captured this: closure fields are unknown, the predicate reads the monitor through it: approximate
             for s2, rv in out:
                 t = truth(rv, s2.sym)
@@ -176,7 +174,7 @@ def run_monitor(prog, rec, A=None):
     rec.count('M2 wait sites', nwait, 2)
     # waits anywhere else on the monitor's condition variables are not expected
     for f in prog.functions.values():
-        if f.get('rec') == A.Mq:
+        if f.get('rec') == A.Mq or f['q'].startswith(A.Mq + '::'):
             continue
         for n in walk(f['body']):
             if n['k'] == 'CXXMemberCallExpr' and n['callee'].get('q') == 'std::condition_variable::wait':
@@ -220,8 +218,8 @@ def run_monitor(prog, rec, A=None):
                'waiters on %s leave on %s; values written to the token: %s' % (cv, A.names(ls), A.names(written)))
     # writes to the token from outside the monitor class break encapsulation of M1
     for f in prog.functions.values():
-        if f.get('rec') == A.Mq:
-            continue
+        if f.get('rec') == A.Mq or f['q'].startswith(A.Mq + '::'):
+            continue        # lambdas written inside the monitor's methods are part of the monitor
         for n in walk(f['body']):
             if n.get('k') == 'MemberExpr' and n.get('d') == 'F:' + A.state:
                 rec.ob('M1', 'M1@%s::token-access-outside-monitor' % fkey(f), False, nloc(n),
@@ -271,6 +269,13 @@ def run_spawn_join(prog, rec, A):
         mdl[A.io['q']] = io_model
         I = interp.Interp(prog, listeners=[L()], models=mdl)
         st = interp.State()
+        ctor = [c for c in prog.functions.values() if c.get('ctor') and c.get('rec') == srec and len(c['params']) == 1]
+        if len(ctor) == 1:
+            r0 = I.run(ctor[0], st, this=P(OBJ, ()), args=[C(t)])
+            if len(r0) != 1:
+                raise AnalysisBroken('constructor of %s is not a single path' % srec)
+            st = r0[0][0]
+            del ev[:]
         st.mem[(OBJ, (tn_field,))] = C(t)
         st.mem[('G:%s::instance' % A.Gq, ())] = P(('ext', 'group'), ())
         for i in range(tmax):
